@@ -79,6 +79,7 @@ FEATURES = [
     ("sprintf_json", "echo sprintf('%d-%s', 5, 'x'), json_encode(['k' => [1, true, null]]), \"\\n\";"),
     ("global_const", "define('GC{S}', 12); const HC{S} = 'hc'; echo GC{S}, HC{S}, \"\\n\";"),
     ("static_local", "function cnt{S}() { static $n = 0; $n = $n + 1; return $n; } cnt{S}(); cnt{S}(); echo cnt{S}(), \"\\n\";"),
+    ("multi_assign", "function two{S}() { return [1, 2]; } $ma{S}, $mb{S} = two{S}(); echo $ma{S}, $mb{S}, \"\\n\";"),
     ("list_assign", "[$la{S}, $lb{S}] = [1, 2]; echo $la{S}, $lb{S}, \"\\n\";"),
     ("incr_ops", "$u{S} = 1; $u{S}++; ++$u{S}; $u{S} += 3; $u{S} -= 1; $u{S} *= 2; $w{S} = 'a'; $w{S} .= 'b'; echo $u{S}, $w{S}, \"\\n\";"),
     ("uncaught_throw", "echo \"before\\n\"; throw new Exception('uncaught{S}'); echo 'after';"),
@@ -113,6 +114,133 @@ def feature_src(name, code, suffix, namespace=None):
         return ("<?php\nnamespace App%s;\nfunction helper($x) { return $x + 1; }\nclass Svc { const N = 2; function run($x) { return helper($x) * self::N; } }\n"
                 "echo helper(1), (new Svc())->run(2), \\strlen('abc'), \"\\n\";\n" % suffix)
     return "<?php\n" + code.replace("{S}", suffix) + "\n"
+
+
+# ---------------------------------------------------------------------------- string-literal stress family
+# every byte class inside literals, in every literal form; the programs print strlen and bin2hex, so the
+# comparison is on bytes (a compiled string that lost a CR differs in both).  Raw bytes that are not
+# valid UTF-8 are carried in the Python source text as surrogate escapes.
+STR_ATOMS = [
+    ("plain", b"ab"), ("cr", b"\r"), ("lf", b"\n"), ("crlf", b"\r\n"), ("tab", b"\t"), ("nul", b"\0"), ("del", b"\x7f"),
+    ("esc", b"\x1b"), ("bq", b"`"), ("bs", b"\\"), ("dq", b'"'), ("sq", b"'"), ("dollar", b"$"), ("brace", b"{x}"),
+    ("pct", b"%d%s%%"), ("utf8", "\u00e9\u4e2d".encode("utf-8")), ("astral", "\U0001f600".encode("utf-8")),
+    ("bad", b"\xff"), ("trunc", b"\xc3"), ("bom", b"\xef\xbb\xbf"), ("ls", "\u2028".encode("utf-8")),
+    ("nbsp", "\u00a0".encode("utf-8")), ("vt_ff", b"\x0b\x0c"), ("nel", "\u0085".encode("utf-8")),
+]
+
+
+def stress_strings(rng, n_random):
+    """(id, bytes) list: every atom alone, every atom after a newline, every ordered pair joined by a
+    newline (a multi-line literal is where an emitter may switch representation), random mixes, a long one."""
+    res = [(n, b) for n, b in STR_ATOMS]
+    res += [("lf+" + n, b"x\n" + b + b"y") for n, b in STR_ATOMS]
+    for n1, b1 in STR_ATOMS:
+        for n2, b2 in STR_ATOMS:
+            res.append((n1 + "+lf+" + n2, b1 + b"\n" + b2))
+    for k in range(n_random):
+        parts = [rng.choice(STR_ATOMS)[1] for _ in range(rng.randint(2, 7))]
+        res.append(("rnd%d" % k, b"".join(parts)))
+    res.append(("long", b"line of text \r\n" * 400))
+    res.append(("empty", b""))
+    return res
+
+
+def _php_dq_escaped(b):
+    out = []
+    for c in b:
+        ch = chr(c)
+        if ch == "\r": out.append("\\r")
+        elif ch == "\n": out.append("\\n")
+        elif ch == "\t": out.append("\\t")
+        elif c == 0: out.append("\\0")
+        elif ch in '"\\$': out.append("\\" + ch)
+        elif 32 <= c < 127 and ch != "{": out.append(ch)
+        else: out.append("\\x%02x" % c)
+    return '"' + "".join(out) + '"'
+
+
+def _raw(b):
+    return b.decode("utf-8", "surrogateescape")
+
+
+def _php_dq_raw(b):
+    if b"\0" in b:
+        return None
+    return '"' + _raw(b.replace(b"\\", b"\\\\").replace(b'"', b'\\"').replace(b"$", b"\\$")) + '"'
+
+
+def _php_sq_raw(b):
+    if b"\0" in b:
+        return None
+    return "'" + _raw(b.replace(b"\\", b"\\\\").replace(b"'", b"\\'")) + "'"
+
+
+def _php_heredoc(b):
+    if b"\0" in b or b"EOT" in b:
+        return None
+    return "<<<EOT\n" + _raw(b.replace(b"\\", b"\\\\").replace(b"$", b"\\$")) + "\nEOT"
+
+
+def _php_nowdoc(b):
+    if b"\0" in b or b"EOT" in b:
+        return None
+    return "<<<'EOT'\n" + _raw(b) + "\nEOT"
+
+
+def _php_interp(b):
+    if b"\0" in b:
+        return None
+    return '"<{$iv}' + _php_dq_raw(b)[1:-1] + '{$iv}>"'
+
+
+STR_FORMS = [("dq_escaped", _php_dq_escaped), ("dq_raw", _php_dq_raw), ("sq_raw", _php_sq_raw), ("heredoc", _php_heredoc),
+             ("nowdoc", _php_nowdoc), ("interpolated", _php_interp)]
+
+
+def string_programs(rng, quick):
+    strs = stress_strings(rng, 12 if quick else 400)
+    if quick:
+        # all atoms and lf+atom, a seeded tenth of the pairs, the long one; the whole list goes through the
+        # emitter round trip below in both tiers (cheap), the programs carry the subset
+        strs = [x for x in strs if "+lf+" not in x[0] or rng.random() < 0.1]
+    progs = []
+    for form, lit in STR_FORMS:
+        lines = ["<?php", "function p_%s($i, $s) { echo $i, ':', strlen($s), ':', bin2hex($s), \"\\n\"; }" % form, "$iv = 'I';"]
+        for sid, b in strs:
+            l = lit(b)
+            if l is None:
+                continue
+            lines.append("p_%s('%s', %s);" % (form, sid, l))
+        # the same literals in the other positions a string constant is emitted from: array keys/values,
+        # default parameter values, class constants, match arms
+        progs.append(("strlit_" + form, "\n".join(lines) + "\n"))
+    pos = ["<?php"]
+    for k, (sid, b) in enumerate(strs[: (30 if quick else 400)]):
+        l = _php_dq_escaped(b)
+        pos.append("function d%d($p = %s) { return $p; } class K%d { const C = %s; public $q = %s; }\n"
+                   "$a = [%s => %s]; foreach ($a as $ak => $av) { echo '%s:', bin2hex((string)$ak), ':', bin2hex($av), ':', bin2hex(d%d()), ':', bin2hex(K%d::C), ':', bin2hex((new K%d())->q), \"\\n\"; }"
+                   % (k, l, k, l, l, l, l, sid, k, k, k))
+    progs.append(("strlit_positions", "\n".join(pos) + "\n"))
+    return progs, strs
+
+
+# ---------------------------------------------------------------------------- include / require that cannot load
+# include/include_once warn and go on, require/require_once are fatal: only visible when the target cannot
+# be loaded.  All four forms x missing file / empty path / directory x inside try or not.
+def include_programs():
+    progs = []
+    for form in ("include", "include_once", "require", "require_once"):
+        for tname, tgt in (("missing", "'/nonexistent/c16/nosuch.php'"), ("empty", "''"), ("dir", "'/tmp'")):
+            progs.append(("inc_%s_%s_bare" % (form, tname),
+                          "<?php\necho \"before\\n\";\n$r = %s %s;\necho ($r === false ? 'false' : 'other'), \"\\nafter\\n\";\n" % (form, tgt)))
+            progs.append(("inc_%s_%s_try" % (form, tname),
+                          "<?php\ntry {\n  echo \"before\\n\";\n  $r = %s %s;\n  echo ($r === false ? 'false' : 'other'), \"\\n\";\n} catch (\\Throwable $e) {\n  echo 'caught ', get_class($e), \"\\n\";\n} finally {\n  echo \"finally\\n\";\n}\necho \"after\\n\";\n" % (form, tgt)))
+    return progs
+
+
+def write_src(path, src):
+    with open(path, "w", encoding="utf-8", errors="surrogateescape", newline="") as f:
+        f.write(src)
 
 
 # ---------------------------------------------------------------------------- dump -> Coq
@@ -346,17 +474,24 @@ def main(ck):
     # ---- programs
     progs = {}          # path -> meta
     replay = None
+    stress = []
     if ck.replay:
         replay = json.load(open(ck.replay)).get("case")
     if replay and replay.get("src"):
         p = os.path.join(gen_dir, "replay.php")
-        open(p, "w").write(replay["src"])
+        write_src(p, replay["src"])
         progs[p] = {"kind": "feature", "features": replay.get("features", ["replay"]), "src": replay["src"]}
     elif replay is None:
         for i, (name, code) in enumerate(FEATURES):
             p = os.path.join(gen_dir, "f%02d_%s.php" % (i, name))
             src = feature_src(name, code, "_%d" % i)
-            open(p, "w").write(src)
+            write_src(p, src)
+            progs[p] = {"kind": "feature", "features": [name], "src": src}
+        sprogs, _ = string_programs(rng, quick)
+        stress = stress_strings(rng, 100)
+        for name, src in sprogs + include_programs():
+            p = os.path.join(gen_dir, "x_%s.php" % name)
+            write_src(p, src)
             progs[p] = {"kind": "feature", "features": [name], "src": src}
         combinable = [f for f in FEATURES if f[0] not in ("uncaught_throw", "undefined_function", "exit_code", "namespace_fn", "shutdown_function")
                       and not any(k.startswith("e2e:feature=%s" % f[0]) or k.startswith("struct:") and f[0] in k for k in ck.known)]
@@ -449,7 +584,12 @@ def main(ck):
     for f in files_in_order:
         if not f.startswith(gen_dir):
             by_dir.setdefault(next(d for d in corpus_dirs if f.startswith(d)), []).append(f)
-    reqs = [{"mode": "table"}, {"mode": "emit_zero"}, {"mode": "struct", "files": gen_files}]
+    if replay and replay.get("kind") == "strlit":
+        stress = [("replay", bytes.fromhex(replay["hex"]))]
+    elif replay is None and not quick:
+        stress = stress_strings(rng, 3000)
+    reqs = [{"mode": "table"}, {"mode": "emit_zero"}, {"mode": "strlit", "hex": [b.hex() for _, b in stress]},
+            {"mode": "struct", "files": gen_files}]
     for d in sorted(by_dir):
         reqs.append({"mode": "struct", "files": sorted(by_dir[d])})
     outs, p = run_engine(engine, reqs, repo)
@@ -460,7 +600,8 @@ def main(ck):
     table = outs[0]["table"] + PSEUDO_TYPES
     tmap = {t["name"]: t for t in table}
     emit_zero = outs[1]["emit_zero"]
-    structs = [s for o in outs[2:] for s in o["struct"]]
+    strlit = outs[2].get("strlit") or []
+    structs = [s for o in outs[3:] for s in o["struct"]]
     tbl_term = coq_table(table)
     table_def = "Definition tbl : table := %s.\n" % tbl_term
     obl = os.path.join(ck.bdir, "Obligations.v")
@@ -538,8 +679,29 @@ def main(ck):
         ck.broken.append("correspondence:C16.emit_zero:%s" % e["name"])
         ck.violation("tie:emit-zero:%s" % e["name"], {"case": {"kind": "emit_zero", "type": e["name"]}, "impl_out": e,
                                                      "clause": "emit_ok_iff_covered: the model and Generator.Emit disagree on whether the zero value of %s can be emitted" % e["name"]})
+    for e in emit_zero:
+        if e.get("not_go"):
+            ck.violation("emit:not-go:%s" % e["name"], {"case": {"kind": "emit_zero", "type": e["name"]}, "impl_out": e,
+                                                       "clause": "Generator.Emit returned no error on the zero value of %s but the text it printed is not a Go expression (go/parser)" % e["name"]})
     ck.cov["emit_zero_cases"] = len(zterms)
     ck.cov["emit_zero_outcomes"] = {o: sum(1 for e in emit_zero if e["outcome"] == o) for o in ("ok", "error", "panic")}
+
+    # ---- string literals: what the real emitter prints, read back as the Go compiler reads it
+    evaluations += len(strlit)
+    nfields = 0
+    for (sid, b), r in zip(stress, strlit):
+        nfields = max(nfields, r.get("fields", 0))
+        bad = []
+        if r["scalar"] != "ok":
+            bad.append("data.StringValue: " + r["scalar"])
+        bad += r.get("reflect") or []
+        if bad:
+            classes = "+".join(sorted(set(n for n, a in STR_ATOMS if a in b)))[:80]
+            ck.violation("strlit:%s:%s" % (bad[0].split(":")[0].strip(), classes),
+                         {"case": {"kind": "strlit", "hex": b.hex(), "id": sid}, "impl_out": {"emitted": r.get("emitted"), "failures": bad[:10]},
+                          "clause": "string_round_trip: the Go literal the emitter prints for a string must denote exactly the same bytes (%d of its emitters do not)" % len(bad)})
+    ck.cov["string_round_trip_strings"] = len(strlit)
+    ck.cov["string_round_trip_reflective_string_fields"] = nfields
 
     # ---- tie 2 / validation (a): structural comparison per program
     pterms, pidx, subterms = [], [], []
@@ -557,7 +719,13 @@ def main(ck):
             # only nodes that are handler-free as a whole: there the model is a transcription
             if acc and acc[0] is sub["v"]:
                 subterms.append("(%s, %s)" % (coq_val(sub["v"]), coq_bool(sub["ok"])))
-    pbad = ck.eval_cases("prog", header, pterms, "check_prog tbl", shard=max(4, len(pterms) // 12 + 1), timeout=1200)
+    # balance the shards: deal the programs out by size, so that the large ones do not share a shard
+    nsh = max(1, min(16, len(pterms) // 4))
+    order = sorted(range(len(pterms)), key=lambda i: -len(pterms[i]))
+    order = [order[j] for k in range(nsh) for j in range(k, len(order), nsh)]
+    pterms = [pterms[i] for i in order]
+    pidx = [pidx[i] for i in order]
+    pbad = ck.eval_cases("prog", header, pterms, "check_prog tbl", shard=-(-len(pterms) // nsh) if pterms else 1, timeout=1200)
     sbad = ck.eval_cases("sub", header, subterms, "check_sub tbl", shard=400)
     evaluations += len(pterms) + len(subterms)
     traces += len(pterms) + len(subterms)
